@@ -5,11 +5,13 @@ package main
 
 import (
 	"context"
+	"encoding/base64"
 	"encoding/json"
 	"errors"
 	"fmt"
 	"os"
 	"path/filepath"
+	"reflect"
 	"strconv"
 	"strings"
 	"syscall"
@@ -32,7 +34,8 @@ type PPIn struct {
 
 type PPObs struct {
 	Class        string `json:"class"`
-	ErrContent   string `json:"errContent"` // "n/a" | "ok" | "message-lost" | "metadata-lost": a structured error's message and metadata as printed
+	ErrContent   string `json:"errContent"`   // "n/a" | "ok" | "message-lost" | "metadata-lost": a structured error's message and metadata as printed
+	ReplyContent string `json:"replyContent"` // "n/a" | "ok" | "foreign": a successful call hands back what ITS plugin printed
 	LateMs       int    `json:"lateMs"`
 	OverBuffered bool   `json:"overBuffered"`
 	ElapsedMs    int    `json:"elapsedMs"`
@@ -50,7 +53,7 @@ const (
 func validReply(cmd, name, variant string) string {
 	switch cmd {
 	case "get-plugin-metadata":
-		m := map[string]interface{}{"name": name, "description": "generated plugin", "version": "1.0.0", "url": "http://mock.invalid",
+		m := map[string]interface{}{"name": name, "description": "generated plugin " + name, "version": "1.0.0", "url": "http://mock.invalid",
 			"capabilities": []string{"SIGNATURE_GENERATOR.RAW"}, "supportedContractVersions": []string{"1.0"}}
 		switch {
 		case strings.HasPrefix(variant, "missing-"):
@@ -86,14 +89,17 @@ func validReply(cmd, name, variant string) string {
 		}
 		b, _ := json.Marshal(m)
 		return string(b)
+	// every reply names the plugin that printed it, so that a reply can be told from any other call's
 	case "describe-key":
-		return `{"keyId":"k1","keySpec":"EC-256"}`
+		return fmt.Sprintf(`{"keyId":%q,"keySpec":"EC-256"}`, "k-"+name)
 	case "generate-signature":
-		return `{"keyId":"k1","signature":"AAAA","signingAlgorithm":"ECDSA-SHA-256","certificateChain":["AAAA"]}`
+		b := base64.StdEncoding.EncodeToString([]byte("sig of " + name))
+		return fmt.Sprintf(`{"keyId":%q,"signature":%q,"signingAlgorithm":"ECDSA-SHA-256","certificateChain":[%q]}`, "k-"+name, b, b)
 	case "generate-envelope":
-		return `{"signatureEnvelope":"AAAA","signatureEnvelopeType":"application/jose+json"}`
+		b := base64.StdEncoding.EncodeToString([]byte("envelope of " + name))
+		return fmt.Sprintf(`{"signatureEnvelope":%q,"signatureEnvelopeType":"application/jose+json","annotations":{"printedBy":%q}}`, b, name)
 	case "verify-signature":
-		return `{"verificationResults":{},"processedAttributes":[]}`
+		return fmt.Sprintf(`{"verificationResults":{"SIGNATURE_VERIFIER.TRUSTED_IDENTITY":{"success":true,"reason":%q}},"processedAttributes":[%q]}`, name, name)
 	}
 	panic("unknown command " + cmd)
 }
@@ -114,7 +120,7 @@ func procScript(in PPIn, name, fifo string) string {
 		// a structured error: with a message, with an empty message, without the message field, with metadata only next to the code
 		code := strings.TrimPrefix(in.Stderr, "err-")
 		bodyIdx := (len(name) + len(in.Cmd) + in.Exit) % 6
-		body := []string{`"errorMessage":"the plugin says no"`, `"errorMessage":""`, ``, `"errorMetadata":{"k":"v"}`, `"errorMessage":"both","errorMetadata":{"k":"v","k2":""}`, ``}[bodyIdx]
+		body := []string{`"errorMessage":"the plugin ` + name + ` says no"`, `"errorMessage":""`, ``, `"errorMetadata":{"k":"v","by":"` + name + `"}`, `"errorMessage":"both ` + name + `","errorMetadata":{"k":"v","k2":""}`, ``}[bodyIdx]
 		if body != "" {
 			body = "," + body
 		}
@@ -201,7 +207,7 @@ func runPluginProc() int {
 		writeExec(path, procScript(in, name, fifo))
 		// the executable's path as the caller writes it: literal, through a link, with dot elements, relative to the working directory
 		path = strings.TrimSuffix(spell(filepath.Dir(path), filepath.Join(caseDir, "parent-link"), mix(*flagSeed, c.ID, "spell")), "/") + "/notation-" + name
-		obs := PPObs{ErrContent: "n/a"}
+		obs := PPObs{ErrContent: "n/a", ReplyContent: "n/a"}
 		timeout := 60 * time.Second
 		if in.Timing != "immediate" {
 			timeout = ppDeadline
@@ -250,22 +256,8 @@ func runPluginProc() int {
 			time.Sleep(80 * time.Millisecond)
 		}
 		start := time.Now()
-		panicked, msg := guarded(func() {
-			p, err := plugin.NewCLIPlugin(ctx, name, path)
-			must(err)
-			switch in.Cmd {
-			case "get-plugin-metadata":
-				_, callErr = p.GetMetadata(ctx, &pf.GetMetadataRequest{})
-			case "describe-key":
-				_, callErr = p.DescribeKey(ctx, &pf.DescribeKeyRequest{KeyID: "k1"})
-			case "generate-signature":
-				_, callErr = p.GenerateSignature(ctx, &pf.GenerateSignatureRequest{KeyID: "k1", Payload: []byte("x")})
-			case "generate-envelope":
-				_, callErr = p.GenerateEnvelope(ctx, &pf.GenerateEnvelopeRequest{KeyID: "k1", Payload: []byte("x")})
-			case "verify-signature":
-				_, callErr = p.VerifySignature(ctx, &pf.VerifySignatureRequest{})
-			}
-		})
+		var resp interface{}
+		panicked, msg := guarded(func() { resp, callErr = ppCall(ctx, in.Cmd, name, path) })
 		elapsed := time.Since(start)
 		cancel()
 		// release whatever still waits on the fifo (descendants, a hung plugin that survived)
@@ -289,59 +281,109 @@ func runPluginProc() int {
 		if in.Timing != "immediate" && elapsed > ppDeadline+ppBound {
 			obs.LateMs = int((elapsed - ppDeadline - ppBound) / time.Millisecond)
 		}
-		if panicked {
-			obs.Panic, obs.Note = true, msg
-		} else {
-			var ee *plugin.PluginExecutableFileError
-			var me *plugin.PluginMalformedError
-			var re proto.RequestError
-			switch {
-			case callErr == nil:
-				obs.Class = "ok"
-			case errors.As(callErr, &re):
-				obs.Class = "requestError:" + string(re.Code)
-				if strings.HasPrefix(in.Stderr, "err-") {
-					// the error handed out carries what the plugin printed: message and metadata
-					wantMsg := []string{"the plugin says no", "", "", "", "both", strings.Repeat("m", 100000)}[(len(name)+len(in.Cmd)+in.Exit)%6]
-					wantMeta := []map[string]string{nil, nil, nil, {"k": "v"}, {"k": "v", "k2": ""}, nil}[(len(name)+len(in.Cmd)+in.Exit)%6]
-					obs.ErrContent = "ok"
-					gotMsg := ""
-					if re.Err != nil {
-						gotMsg = re.Err.Error()
-					}
-					if gotMsg != wantMsg {
-						obs.ErrContent = "message-lost"
-					}
-					if !mapsEqual(re.Metadata, wantMeta) {
-						obs.ErrContent = "metadata-lost"
-					}
-				}
-			case errors.As(callErr, &ee):
-				obs.Class = "executableFileError"
-			case errors.As(callErr, &me):
-				obs.Class = "malformedError"
-			case func() bool {
-				s, _ := errText(callErr)
-				return strings.Contains(s, "plugin executable file name must be")
-			}():
-				obs.Class = "nameError"
-			default:
-				obs.Class = "otherError"
-			}
-			if callErr != nil {
-				var ep bool
-				if obs.Note, ep = errText(callErr); ep {
-					obs.Panic = true // the error value cannot even be printed
-				}
-				if len(obs.Note) > 300 {
-					obs.Note = obs.Note[:300]
-				}
-			}
-		}
+		ppClassify(&obs, in, name, resp, callErr, panicked, msg)
 		if *flagLie == "class" && c.ID%97 == 7 {
 			obs.Class = "ok-lie"
 		}
 		return []traceLine{{ID: c.ID, Variant: in.Cmd, In: c.In, Obs: obs, Note: obs.Note}}
 	}
 	return runParallel(cases, fn, *flagOut, *flagWorkers)
+}
+
+// ppCall makes one call of the given command through the real CLIPlugin
+func ppCall(ctx context.Context, cmd, name, path string) (resp interface{}, callErr error) {
+	p, err := plugin.NewCLIPlugin(ctx, name, path)
+	must(err)
+	switch cmd {
+	case "get-plugin-metadata":
+		return p.GetMetadata(ctx, &pf.GetMetadataRequest{})
+	case "describe-key":
+		return p.DescribeKey(ctx, &pf.DescribeKeyRequest{KeyID: "k-" + name})
+	case "generate-signature":
+		return p.GenerateSignature(ctx, &pf.GenerateSignatureRequest{KeyID: "k-" + name, Payload: []byte("x")})
+	case "generate-envelope":
+		return p.GenerateEnvelope(ctx, &pf.GenerateEnvelopeRequest{KeyID: "k-" + name, Payload: []byte("x")})
+	case "verify-signature":
+		return p.VerifySignature(ctx, &pf.VerifySignatureRequest{})
+	}
+	panic("unknown command " + cmd)
+}
+
+// ppReplyContent: does the value a successful call handed back say what the plugin's valid reply said?
+func ppReplyContent(in PPIn, name string, resp interface{}) string {
+	var want interface{}
+	switch in.Cmd {
+	case "get-plugin-metadata":
+		want = &pf.GetMetadataResponse{}
+	case "describe-key":
+		want = &pf.DescribeKeyResponse{}
+	case "generate-signature":
+		want = &pf.GenerateSignatureResponse{}
+	case "generate-envelope":
+		want = &pf.GenerateEnvelopeResponse{}
+	case "verify-signature":
+		want = &pf.VerifySignatureResponse{}
+	}
+	if json.Unmarshal([]byte(validReply(in.Cmd, name, "valid")), want) != nil {
+		return "n/a"
+	}
+	if reflect.DeepEqual(want, resp) {
+		return "ok"
+	}
+	return "foreign"
+}
+
+func ppClassify(obs *PPObs, in PPIn, name string, resp interface{}, callErr error, panicked bool, msg string) {
+	if panicked {
+		obs.Panic, obs.Note = true, msg
+	} else {
+		var ee *plugin.PluginExecutableFileError
+		var me *plugin.PluginMalformedError
+		var re proto.RequestError
+		switch {
+		case callErr == nil:
+			obs.Class = "ok"
+			if in.Stdout == "valid" {
+				obs.ReplyContent = ppReplyContent(in, name, resp)
+			}
+		case errors.As(callErr, &re):
+			obs.Class = "requestError:" + string(re.Code)
+			if strings.HasPrefix(in.Stderr, "err-") {
+				// the error handed out carries what the plugin printed: message and metadata
+				wantMsg := []string{"the plugin " + name + " says no", "", "", "", "both " + name, strings.Repeat("m", 100000)}[(len(name)+len(in.Cmd)+in.Exit)%6]
+				wantMeta := []map[string]string{nil, nil, nil, {"k": "v", "by": name}, {"k": "v", "k2": ""}, nil}[(len(name)+len(in.Cmd)+in.Exit)%6]
+				obs.ErrContent = "ok"
+				gotMsg := ""
+				if re.Err != nil {
+					gotMsg = re.Err.Error()
+				}
+				if gotMsg != wantMsg {
+					obs.ErrContent = "message-lost"
+				}
+				if !mapsEqual(re.Metadata, wantMeta) {
+					obs.ErrContent = "metadata-lost"
+				}
+			}
+		case errors.As(callErr, &ee):
+			obs.Class = "executableFileError"
+		case errors.As(callErr, &me):
+			obs.Class = "malformedError"
+		case func() bool {
+			s, _ := errText(callErr)
+			return strings.Contains(s, "plugin executable file name must be")
+		}():
+			obs.Class = "nameError"
+		default:
+			obs.Class = "otherError"
+		}
+		if callErr != nil {
+			var ep bool
+			if obs.Note, ep = errText(callErr); ep {
+				obs.Panic = true // the error value cannot even be printed
+			}
+			if len(obs.Note) > 300 {
+				obs.Note = obs.Note[:300]
+			}
+		}
+	}
 }
